@@ -189,7 +189,7 @@ def main() -> None:
             "pinned tree are repaired by fix: commits in /repo (56) or listed in known_findings.json "
             "(6 open: C01 1, C03 2, C06 1, C15 2 - the check prints KNOWN-FINDING for them and exits 0). "
             "tools/regress.py runs the three corpora kept here: the clean tree, 379 seeded breaking changes "
-            "(seeded/), 460 behaviour-preserving refactorings (refactorings/; six of the last sixty still draw a false alarm or an analysis error from one or two checks - refactorings/OPEN.json, DESIGN.md 11.14)."
+            "(seeded/), 460 behaviour-preserving refactorings (refactorings/; five of the last sixty still draw a false alarm or an analysis error from one or two checks - refactorings/OPEN.json, DESIGN.md 11.14)."
         ),
     }
     (HERE / "MANIFEST.json").write_text(json.dumps(manifest, indent=1) + "\n")
